@@ -403,47 +403,54 @@ def main(tier: str) -> int:
                          {"fn": "wiring", "clause": "crossover"})
     # SHAGA: tournament of size 2, binomialGA, flip_mutation; every individual binary
     import thefittest.optimizers._shaga as SH
-    seen = {"t": [], "b": 0, "f": 0, "ev": []}
-    saved = (SH.tournament_selection, SH.binomialGA, SH.flip_mutation)
+    for mn_ in (False, True):
+        seen = {"t": [], "b": 0, "f": 0, "ev": []}
+        saved = (SH.tournament_selection, SH.binomialGA, SH.flip_mutation)
 
-    def fit(x):
-        seen["ev"].append(np.array(x).copy())
-        return np.sum(x, axis=1, dtype=np.float64)
-    try:
-        sh = SHAGA(fitness_function=fit, iters=4, pop_size=P, str_len=L, random_state=chk.seed)
-        seen["roles"] = []
-        seen["last_t"] = None
+        def fit(x):
+            seen["ev"].append(np.array(x).copy())
+            return np.sum(x, axis=1, dtype=np.float64)
+        try:
+            sh = SHAGA(fitness_function=fit, iters=4, pop_size=P, str_len=L, minimization=mn_, random_state=chk.seed)
+            seen["roles"] = []
+            seen["last_t"] = None
 
-        def wtour(f, r, t, q, _o=saved[0]):
-            seen["t"].append((int(t), int(q)))
-            res = _o(f, r, t, q)
-            seen["last_t"] = int(res[0])
-            return res
+            def wtour(f, r, t, q, _o=saved[0]):
+                seen["t"].append((int(t), int(q)))
+                # the tournament compares the (normalised) fitness of the current population: the better individual wins
+                if not np.array_equal(np.asarray(f), np.asarray(sh._fitness_i)) and "key" not in seen:
+                    seen["key"] = {"minimization": mn_, "key_handed_to_the_tournament": np.asarray(f).tolist()[:5], "normalised_fitness": np.asarray(sh._fitness_i).tolist()[:5]}
+                res = _o(f, r, t, q)
+                seen["last_t"] = int(res[0])
+                return res
 
-        def wbin(a, b, c, _o=saved[1]):
-            i = seen["b"] % P
-            seen["b"] += 1
-            # the child of individual i: individual i is the receiver, the tournament winner the donor, CR_i the rate
-            if not (np.array_equal(a, sh._population_g_i[i]) and np.array_equal(b, sh._population_g_i[seen["last_t"]]) and float(c) == float(sh._CR[i])):
-                seen["roles"].append({"offspring_index": i, "receiver_is_individual_i": bool(np.array_equal(a, sh._population_g_i[i])),
-                                      "donor_is_selected_parent": bool(np.array_equal(b, sh._population_g_i[seen["last_t"]])), "rate_is_CR_i": float(c) == float(sh._CR[i])})
-            return _o(a, b, c)
-        SH.tournament_selection = wtour
-        SH.binomialGA = wbin
-        SH.flip_mutation = lambda a, p, _o=saved[2]: (seen.__setitem__("f", seen["f"] + 1), _o(a, p))[1]
-        sh.fit()
-        if seen["roles"]:
-            chk.fail("SHAGA does not build offspring i from individual i (receiver) and the tournament winner (donor) at rate CR_i",
-                     {"first": seen["roles"][0], "count": len(seen["roles"])}, {"fn": "wiring", "clause": "shaga_roles"})
-    finally:
-        SH.tournament_selection, SH.binomialGA, SH.flip_mutation = saved
-    chk.count("live_SHAGA")
-    if set(seen["t"]) != {(2, 1)} or seen["b"] != 3 * P or seen["f"] != 3 * P:
-        chk.fail("SHAGA does not apply tournament(2) / binomial crossover / flip mutation once per offspring", {"seen": [sorted(set(seen["t"])), seen["b"], seen["f"]]}, {"fn": "wiring", "clause": "shaga"})
-    for batch in seen["ev"]:
-        if batch.shape != (P, L) or not np.isin(batch, (0, 1)).all():
-            chk.fail("a SHAGA population is not pop_size rows of {0,1}^str_len", {"shape": list(batch.shape)}, {"fn": "wiring", "clause": "binary"})
-            break
+            def wbin(a, b, c, _o=saved[1]):
+                i = seen["b"] % P
+                seen["b"] += 1
+                # the child of individual i: individual i is the receiver, the tournament winner the donor, CR_i the rate
+                if not (np.array_equal(a, sh._population_g_i[i]) and np.array_equal(b, sh._population_g_i[seen["last_t"]]) and float(c) == float(sh._CR[i])):
+                    seen["roles"].append({"offspring_index": i, "receiver_is_individual_i": bool(np.array_equal(a, sh._population_g_i[i])),
+                                          "donor_is_selected_parent": bool(np.array_equal(b, sh._population_g_i[seen["last_t"]])), "rate_is_CR_i": float(c) == float(sh._CR[i])})
+                return _o(a, b, c)
+            SH.tournament_selection = wtour
+            SH.binomialGA = wbin
+            SH.flip_mutation = lambda a, p, _o=saved[2]: (seen.__setitem__("f", seen["f"] + 1), _o(a, p))[1]
+            sh.fit()
+            if "key" in seen:
+                chk.fail("SHAGA's tournament does not compare the normalised fitness of the current population (the better individual must win)",
+                         seen["key"], {"fn": "wiring", "clause": "shaga_tournament_key"})
+            if seen["roles"]:
+                chk.fail("SHAGA does not build offspring i from individual i (receiver) and the tournament winner (donor) at rate CR_i",
+                         {"first": seen["roles"][0], "count": len(seen["roles"])}, {"fn": "wiring", "clause": "shaga_roles"})
+        finally:
+            SH.tournament_selection, SH.binomialGA, SH.flip_mutation = saved
+        chk.count("live_SHAGA")
+        if set(seen["t"]) != {(2, 1)} or seen["b"] != 3 * P or seen["f"] != 3 * P:
+            chk.fail("SHAGA does not apply tournament(2) / binomial crossover / flip mutation once per offspring", {"seen": [sorted(set(seen["t"])), seen["b"], seen["f"]]}, {"fn": "wiring", "clause": "shaga"})
+        for batch in seen["ev"]:
+            if batch.shape != (P, L) or not np.isin(batch, (0, 1)).all():
+                chk.fail("a SHAGA population is not pop_size rows of {0,1}^str_len", {"shape": list(batch.shape)}, {"fn": "wiring", "clause": "binary"})
+                break
 
     try:
         outs = C.lean_driver([json.dumps(o) for o in ops])
